@@ -124,6 +124,39 @@ def gen_cases(ctx: Ctx):
     # 7 unknown COM mode
     cases.append(("reject", {"kind": "remove_com", "mode": "rotational", "precondition": "remove_com_mode", "expect": R}))
     cases.append(("reject", {"kind": "remove_com", "mode": "angular", "precondition": "remove_com_mode", "expect": "accept"}))
+    # generated malformed mode strings: fragments, concatenations, typos of the valid names (the code lower-cases and strips, so case/space variants are valid)
+    valid = ["linear", "angular"]
+    bad_modes = set(["", "linearangular", "angularlinear", "both", "none", "lin", "ang", "r", "l", "a"])
+    for _ in range(12 if ctx.thorough else 5):
+        w = str(rng.choice(valid))
+        i, j = sorted(int(v) for v in rng.integers(0, len(w) + 1, size=2))
+        bad_modes.add(w[i:j])                                  # substring
+        bad_modes.add(w[:i] + w[i + 1:])                       # deletion
+        bad_modes.add(w[:i] + "x" + w[i:])                     # insertion
+        bad_modes.add(w + str(rng.choice(valid)))              # concatenation
+    bad_modes -= set(valid)
+    pick = sorted(bad_modes)
+    for m in ([pick[int(k)] for k in rng.choice(len(pick), size=8, replace=False)] if not ctx.thorough else pick):
+        cases.append(("reject", {"kind": "remove_com", "mode": m, "precondition": "remove_com_mode", "expect": R}))
+    for m in (" Linear", "ANGULAR ", "linear"):
+        cases.append(("reject", {"kind": "remove_com", "mode": m, "precondition": "remove_com_mode", "expect": "accept"}))
+    # generated unsorted species rows (every non-sorted permutation of a sorted row, incl. padding zeros in the middle)
+    for _ in range(6 if ctx.thorough else 2):
+        nm = str(rng.choice(["ch2o", "hcn", "ch3cl", "so2", "h2o"]))
+        z, x = esh.geom(nm)
+        if rng.uniform() < 0.4:
+            z, x = z + [0], np.vstack([x, [[0.0, 0.0, 0.0]]])
+        for _try in range(20):
+            perm = rng.permutation(len(z))
+            zz = [z[int(k)] for k in perm]
+            if any(zz[k] < zz[k + 1] for k in range(len(zz) - 1)):
+                cases.append(("reject", {"kind": "unsorted", "species": zz, "coords": x[perm].tolist(), "precondition": "sorted_species", "expect": R}))
+                break
+    # generated charge / multiplicity requests; the expected class is whatever the PROVED guard model says (filled in by run())
+    for _ in range(16 if ctx.thorough else 6):
+        nm = str(rng.choice(["h2o", "oh", "no", "o2", "h2", "ch4", "nh3", "co"]))
+        uhf = bool(rng.integers(0, 2))
+        cases.append(("reject", {"kind": "es", "names": [nm], "uhf": uhf, "charge": [int(rng.integers(-4, 7))], "mult": [int(rng.integers(1, 8))], "precondition": "charge_mult_generated", "expect": "model"}))
     # valid counterparts must be accepted (no false rejections)
     cases.append(("reject", {"kind": "es", "names": ["oh"], "uhf": True, "mult": [2], "precondition": "charge_mult", "expect": "accept"}))
     cases.append(("reject", {"kind": "es", "names": ["o2"], "uhf": True, "mult": [3], "precondition": "charge_mult", "expect": "accept"}))
@@ -152,7 +185,7 @@ def _encode(inp: Dict[str, Any]):
     """request -> token list of the Lean `validate_class` operation (None if the request kind is not modelled)"""
     methods = {"MNDO": 0, "AM1": 1, "PM3": 2, "PM6": 3, "PM6_SP": 4}
     if inp["kind"] == "remove_com":
-        com = {"linear": 1, "angular": 2}.get(inp["mode"], 3)
+        com = {"linear": 1, "angular": 2}.get(str(inp["mode"]).lower().strip(), 3)
         return ["validate_class", 0, 1, 0, 1, 0, 0, 0, 0, 0, com, 1, 0, 1, 3, 8, 1, 1]
     if inp["kind"] == "unsorted":
         z = inp["species"]
@@ -171,9 +204,17 @@ def _encode(inp: Dict[str, Any]):
 
 def run(ctx: Ctx):
     from ..translate import gen
-    gen.regenerate(ctx, ["Guards", "LoopCensus"])
+    gen.regenerate(ctx, ["Guards"])
     leanproj.check_theorems(ctx, MODULE, THEOREMS)
     cases = gen_cases(ctx)
+    # generated requests: the expected class is the verdict of the proved guard model (= the documented preconditions)
+    drv = leanproj.Driver()
+    try:
+        for name, c in cases:
+            if c.get("expect") == "model":
+                c["expect"] = "accept" if drv.ask(*_encode(c)) == ["ok"] else "reject"
+    finally:
+        drv.close()
     results = mdh.pmap(_run_case, cases, timeout=1800)
     drv = leanproj.Driver()
     try:
